@@ -1,10 +1,11 @@
 """C07 — same-time events from one origin keep scheduling order."""
 import simgen, oracles
-from props import simprops
+from props import simprops, sqfprops
 
-HARNESS = ("simh",)
+HARNESS = ("simh", "atomh")
 TRUSTED = ["the end-to-end order statement is the composition of c07_queue_stable, c07_insert_last, c07_task_sequential, c07_mailbox_fifo (each proved for all inputs); the composition over whole traces is checked by exact log comparison with Sim.v and by the direct oracle, not by a single Coq trace theorem",
            "on multi-threaded runs the order is decided by the direct oracle on observed logs"]
+TRUSTED = TRUSTED + sqfprops.TRUSTED
 ASSUMPTIONS = []
 ORACLES = (oracles.o_harness, oracles.o_driver_events, oracles.o_time)
 
@@ -20,6 +21,7 @@ def nontrivial(c, mobs):
 
 def tie(rep, tier, rng, model_ok):
     q = tier == "quick"
+    sqfprops.run(rep, tier, rng, model_ok)
     a = simprops.corpus_cases("C07") + [simgen.gen_burst(rng) for _ in range(500 if q else 15000)]
     b = [simgen.gen_sched(rng) for _ in range(150 if q else 4000)]
     c = [simgen.gen_multi_origin(rng) for _ in range(300 if q else 8000)]
@@ -35,4 +37,7 @@ def tie(rep, tier, rng, model_ok):
 
 
 def replay(rep, path, model_ok):
+    import json
+    if sqfprops.replay(json.load(open(path))):
+        return
     simprops.replay(rep, path, model_ok)
